@@ -32,3 +32,27 @@ def c07_bom(case, observed, expected):
 
 def c07_list_comma(case, observed, expected):
     return bool(case.get("impl_equal")) and any(44 in i for i in _items(case))
+
+
+# ---------------------------------------------------------------- C08 / C05
+def _pvals(case):
+    return [v for p in case.get("c", {}).get("ps", []) for v in p["vals"]]
+
+
+def c08_param_backslash_pct(case, observed, expected):
+    """KF_C08_Unescape: a parameter value contains a backslash or a percent sign and the
+    code did exactly what the pinned parts() placeholder mechanism does."""
+    return bool(case.get("impl_equal")) and any(92 in v or 37 in v for v in _pvals(case))
+
+
+def c05_value_unescape(case, observed, expected):
+    """value text altered by the parts() placeholder mechanism (C07-K2 / C08-K1 seen from C05)"""
+    v = case.get("c", {}).get("v", [])
+    return bool(case.get("impl_equal")) and (
+        any(92 in x or 37 in x for x in _pvals(case)) or 92 in v or 37 in v or (v[:1] == [65279]))
+
+
+def c05_param_backslash_injection(case, observed, expected):
+    if "payload" in case:
+        return bool(case.get("param_backslash"))
+    return bool(case.get("impl_equal")) and any(92 in x for x in _pvals(case))
